@@ -349,6 +349,10 @@ func extractOption(nodes map[string]*chanCall, opts ...Option) (map[string][]any
 
 			if len(path.path) == 1 {
 				if len(opt.options) == 0 {
+					if opt.maxRunSteps > 0 && curNode.action.optionType == nil && !curNode.action.isPassthrough {
+						// a run-time step limit designated to a nested graph: hand it on as the graph's own option
+						optMap[curNodeKey] = append(optMap[curNodeKey], Option{maxRunSteps: opt.maxRunSteps})
+					}
 					// sub graph common callbacks has been added to ctx in initNodeCallback and won't be passed to subgraph only pass options
 					// node callback also won't be passed
 					continue
